@@ -183,6 +183,11 @@ def load_registry():
 def audit_list(mods, thms):
     """`#print axioms` for the given theorems; returns (n, n_ok, bad, raw output)"""
     mods = sorted(set(mods))
+    # a module that did not build (an obligation in it, or in something it imports, failed) has no .olean: its theorems
+    # are reported as such, the others are audited
+    built = [m for m in mods if os.path.exists(os.path.join(LEAN, '.lake', 'build', 'lib', 'lean', *m.split('.')) + '.olean')]
+    unbuilt = [m for m in mods if m not in built]
+    mods = built
     src = '\n'.join(f'import {m}' for m in mods) + '\n' + '\n'.join(f'#print axioms {t}' for t in thms) + '\n'
     os.makedirs(WORK, exist_ok=True)
     path = os.path.join(WORK, f'Audit_{os.getpid()}.lean')
